@@ -122,6 +122,14 @@ class GetDescriptorHandlerDistributed(Elaboratable):
         # Connect up each of our generators.
         #
 
+        # Strobe that requests a zero-length packet: raised for one cycle when a transmission is started
+        # at (or past) the end of the requested descriptor -- i.e. when the previous packet ended the descriptor
+        # exactly on a packet boundary -- or when nothing remains of the requested length. Our transmitter takes
+        # `valid` and `last` without `first` as a ZLP and never accepts (`ready`) such a beat, so the ZLP has to
+        # be a single-cycle pulse.
+        send_zlp = Signal()
+        m.d.usb += send_zlp.eq(0)
+
         with m.Switch(self.value):
 
             # Generate a conditional interconnect for each of our items.
@@ -132,12 +140,28 @@ class GetDescriptorHandlerDistributed(Elaboratable):
 
                     # ... connect the relevant generator to our output.
                     m.d.comb += generator.stream  .attach(self.tx)
-                    m.d.usb += generator.start    .eq(self.start),
+
+                    # Constant descriptors know their length: never start them past their end (the
+                    # generator cannot represent that start position); send a ZLP instead.
+                    data_length = getattr(generator, "_data_length", None)
+                    if data_length is None:
+                        m.d.usb += generator.start    .eq(self.start),
+                    else:
+                        past_end = (self.start_position >= data_length) | (length == 0)
+                        m.d.usb += [
+                            generator.start  .eq(self.start & ~past_end),
+                            send_zlp         .eq(self.start &  past_end),
+                        ]
 
             # If none of our descriptors match, stall any request that comes in.
             with m.Default():
                 m.d.comb += self.stall.eq(self.start)
 
+        with m.If(send_zlp):
+            m.d.comb += [
+                self.tx.valid  .eq(1),
+                self.tx.last   .eq(1),
+            ]
 
         return m
 
